@@ -131,11 +131,16 @@ func Disassemble(main *runtime.Function, globals []Global, n int) map[string][]b
 			packages = packages[:]
 		}
 
+		// Functions are sorted by line; functions with the same line, for
+		// example in different files, keep the order in which they have been
+		// found, so that the result does not depend on the map order.
 		functions := make([]*runtime.Function, 0, len(funcs))
-		for fn := range funcs {
-			functions = append(functions, fn)
+		for _, fn := range allFunctions {
+			if _, ok := funcs[fn]; ok {
+				functions = append(functions, fn)
+			}
 		}
-		sort.Slice(functions, func(i, j int) bool { return funcs[functions[i]] < funcs[functions[j]] })
+		sort.SliceStable(functions, func(i, j int) bool { return funcs[functions[i]] < funcs[functions[j]] })
 
 		for _, fn := range functions {
 			if fn.Macro {
